@@ -1,3 +1,4 @@
+#define HV_EIGEN_ASSERT_THROWS
 // C11 numeric harness: cspline_eval_vs / _gs and their derivative / Jacobian outputs on the real library against an
 // independent long-double oracle: g(u) = prod_j expm(B~_j(u) hat(v_j)) with the documented hat matrices; body velocity
 // vee(g^-1 g'), acceleration and jerk by Richardson-extrapolated central differences; Jacobians w.r.t. the control
@@ -210,7 +211,9 @@ void run_all_K(Rng & rng, int n, const char * gname)
   run<G, 6>(rng, n / 4, gname);
 }
 
-int main()
+static int hv_main();
+int main() { return hv::guard(hv_main); }
+static int hv_main()
 {
   Report rep;
   rep.property = "C11";
